@@ -9,7 +9,7 @@
 
    Not modelled (outside the universe; the harness never generates them): Marshaler / Unmarshaler /
    UDTMarshaler / UDTUnmarshaler user hooks, embedded structs and unexported struct fields, string
-   sources for inet / date / duration (net.ParseIP, time.Parse, time.ParseDuration), 32-bit platforms
+   sources for date / duration (time.Parse, time.ParseDuration), 32-bit platforms
    (int/uint are 64 bits), zero-arity tuples. *)
 From GocqlV Require Import Lib.Base Gen.Consts.
 From GocqlV Require C19.Model.
@@ -253,6 +253,108 @@ Definition ip_to4 (b : bytes) : option bytes :=
 Definition ip_to16 (b : bytes) : option bytes :=
   if (length b =? 4)%nat then Some ([0;0;0;0;0;0;0;0;0;0;255;255] ++ b)
   else if (length b =? 16)%nat then Some b else None.
+(* ---- net.ParseIP (= netip.ParseAddr without zone, widened to 16 bytes) ----------------------------------------- *)
+Definition hexv (c : Z) : option Z :=
+  if (48 <=? c) && (c <=? 57) then Some (c - 48)
+  else if (97 <=? c) && (c <=? 102) then Some (c - 87)
+  else if (65 <=? c) && (c <=? 70) then Some (c - 55)
+  else None.
+
+(* parseIPv4Fields: exactly four decimal fields 0..255 separated by dots, no leading zeros, nothing else *)
+Fixpoint v4_loop (s : bytes) (val : Z) (diglen : nat) (fields : list Z) : option (list Z) :=
+  match s with
+  | [] => if (diglen =? 0)%nat then None else if (length fields =? 3)%nat then Some (fields ++ [val]) else None
+  | c :: r =>
+      if (48 <=? c) && (c <=? 57) then
+        (if (diglen =? 1)%nat && (val =? 0) then None
+         else let v := val * 10 + (c - 48) in if 255 <? v then None else v4_loop r v (S diglen) fields)
+      else if c =? 46 then
+        (if (diglen =? 0)%nat then None else if (length fields =? 3)%nat then None else v4_loop r 0 0 (fields ++ [val]))
+      else None
+  end.
+
+(* one colon-separated field: up to four hex digits; returns value, number of digits, the rest *)
+Fixpoint hex_group (s : bytes) (acc : Z) (n : nat) : option (Z * nat * bytes) :=
+  match s with
+  | [] => Some (acc, n, [])
+  | c :: r => match hexv c with
+              | Some d => if (4 <=? n)%nat then None else hex_group r (acc * 16 + d) (S n)
+              | None => Some (acc, n, s)
+              end
+  end.
+
+(* parseIPv6 main loop: bytes written so far (acc, i of them), position of "::" if seen *)
+Fixpoint v6_loop (fuel : nat) (s : bytes) (acc : bytes) (ell : option nat) : option (bytes * option nat) :=
+  match fuel with
+  | O => None
+  | S fu =>
+      if (16 <=? length acc)%nat then (match s with [] => Some (acc, ell) | _ => None end)
+      else
+        match hex_group s 0 0 with
+        | None => None
+        | Some (v, n, rest) =>
+            if (n =? 0)%nat then None
+            else
+              match rest with
+              | 46 :: _ =>
+                  (* embedded IPv4 in the last four bytes *)
+                  if (match ell with None => negb (length acc =? 12)%nat | Some _ => false end) then None
+                  else if (16 <? length acc + 4)%nat then None
+                  else match v4_loop s 0 0 [] with
+                       | Some f => Some (acc ++ f, ell)
+                       | None => None
+                       end
+              | [] => Some (acc ++ [v / 256; v mod 256], ell)
+              | 58 :: [] => None
+              | 58 :: 58 :: rest2 =>
+                  (match ell with
+                   | Some _ => None
+                   | None => let acc' := acc ++ [v / 256; v mod 256] in
+                             match rest2 with
+                             | [] => Some (acc', Some (length acc'))
+                             | _ => v6_loop fu rest2 acc' (Some (length acc'))
+                             end
+                   end)
+              | 58 :: rest1 => v6_loop fu rest1 (acc ++ [v / 256; v mod 256]) ell
+              | _ => None
+              end
+        end
+  end.
+
+Definition parse_v6 (s : bytes) : option bytes :=
+  let start := match s with
+               | 58 :: 58 :: r => Some (r, Some O)
+               | _ => Some (s, None)
+               end in
+  match start with
+  | Some ([], Some _) => Some (repeat 0 16)
+  | Some (s', ell) =>
+      match v6_loop 10 s' [] ell with
+      | Some (acc, ell') =>
+          if (length acc <? 16)%nat then
+            match ell' with
+            | None => None
+            | Some e => Some (firstn e acc ++ repeat 0 (16 - length acc) ++ skipn e acc)
+            end
+          else match ell' with None => Some acc | Some _ => None end
+      | None => None
+      end
+  | None => None
+  end.
+
+(* the first of '.', ':', '%' decides; a zone is not an IP for net.ParseIP *)
+Fixpoint ip_kind (s : bytes) : Z :=
+  match s with
+  | [] => 0
+  | c :: r => if c =? 46 then 4 else if c =? 58 then 6 else if c =? 37 then 0 else ip_kind r
+  end.
+
+Definition parse_ip (s : bytes) : option bytes :=
+  if existsb (fun c => c =? 37) s then None
+  else if ip_kind s =? 4 then option_map (fun f => [0;0;0;0;0;0;0;0;0;0;255;255] ++ f) (v4_loop s 0 0 [])
+  else if ip_kind s =? 6 then parse_v6 s
+  else None.
+
 (* dotted decimal of a 4-byte address *)
 Definition ipv4_string (b : bytes) : bytes :=
   match b with
@@ -537,6 +639,11 @@ Definition marshal_inet (g : gval) : mres :=
   match g with
   | GUnset => Ok None | GNil => Ok None
   | GIP b => match ip_to4 b with Some t => some_bytes t | None => Ok (ip_to16 b) end
+  | GStr false s =>
+      match parse_ip s with
+      | Some b => match ip_to4 b with Some t => some_bytes t | None => Ok (ip_to16 b) end
+      | None => Err
+      end
   | _ => Err
   end.
 
@@ -1289,6 +1396,7 @@ Definition unmarshal_map (pv : Z) (fk fv : odata -> gty -> ures) (d : odata) (t 
       | Some data =>
           rbind (read_size pv data) (fun nr =>
             if fst nr <? 0 then Err
+            else if blen (snd nr) / (2 * size_width pv) <? fst nr then Err    (* more entries than size fields fit *)
             else rmap (fun l => GMap (Some l))
                    (map_loop (S (length data)) pv (fun kd => ptr_wrap kt kd (fk kd)) (fun vd => ptr_wrap vt vd (fv vd))
                              (fst nr) (snd nr) []))
